@@ -347,11 +347,13 @@ def ntlmToken (tok : Bytes) : R Unit := do
     ntlmField tok 52 hdr "EncryptedRandomSessionKeyFields"
   else .error "NTLM MessageType"
 
-def tsRequest (b : Bytes) : R Unit := do
+/-- `minVersion`: 2 for what the client emits; 0 when only the ENCODING of a server reply is
+    judged (the client does not interpret the version number) -/
+def tsRequestV (minVersion : Nat) (b : Bytes) : R Unit := do
   let (c, r) ← tlv 0x30 b "TSRequest"
   need (r = []) "TSRequest: trailing bytes"
   let (v, c) ← tlv 0xa0 c "version"
-  let (vn, vr) ← derInt v "version"; need (vr = [] ∧ vn ≥ 2) "version"
+  let (vn, vr) ← derInt v "version"; need (vr = [] ∧ vn ≥ minVersion) "version"
   let (c) ← (match c with
     | 0xa1 :: _ => do
       let (nt, c') ← tlv 0xa1 c "negoTokens"
@@ -369,6 +371,8 @@ def tsRequest (b : Bytes) : R Unit := do
     | 0xa3 :: _ => do let (pk, c') ← tlv 0xa3 c "pubKeyAuth"; let (x, e) ← tlv 0x04 pk "pubKeyAuth"; need (e = [] ∧ x.length ≥ 16) "pubKeyAuth"; pure c'
     | _ => pure c)
   need (c = []) "TSRequest: unexpected or misordered field"
+
+def tsRequest (b : Bytes) : R Unit := tsRequestV 2 b
 
 def verdict (r : R Unit) : String := match r with | .ok _ => "ok" | .error e => "bad:" ++ e.replace " " "_"
 
